@@ -584,7 +584,10 @@ func (g *genr) numLeaf(hint string) *node {
 	case 0:
 		return num(fw.Pick(r, []string{"0.5", "1.5", "2.25", "0.1", "2.50", "10.0", "0.125"}))
 	case 1:
-		return num(fw.Pick(r, []string{"10", "12", "100", "25", "64", "1000", "12345", "99999"}))
+		// (5-digit and larger literals only appear where the surrounding structure is controlled — the directed
+		// number-forms cases and the stop of WORD_SLICE — because a known grouping loss around them can turn a small
+		// REPT count into a huge one)
+		return num(fw.Pick(r, []string{"10", "12", "100", "25", "64"}))
 	case 2:
 		if hint != "nonneg" {
 			return intLit(-r.Range(1, 5))
